@@ -24,6 +24,10 @@ pub struct WriteCase {
     pub extra: Value,
     pub with_payload: bool,
     pub repr: Vec<u8>,
+    /// no fixed atoms around the synthetic ones: control = {3, 0, A0}, payload = {A1, ..} (a message all of whose atoms
+    /// can be long)
+    #[serde(default)]
+    pub bare: bool,
 }
 
 fn synth_atom(i: usize, len: Option<u32>) -> String {
@@ -70,6 +74,11 @@ fn build_terms(case: &WriteCase) -> (Value, Option<Value>) {
         }
         seen.push(a.clone());
         atoms.push(Value::Atom(a));
+    }
+    if case.bare && !atoms.is_empty() {
+        let control = Value::Tuple(vec![Value::int(3), Value::int(0), atoms[0].clone()]);
+        let payload = if case.with_payload && atoms.len() >= 2 { Some(Value::Tuple(atoms[1..].to_vec())) } else { None };
+        return (control, payload);
     }
     // spread the atoms over different positions: tuple fields, list elements, map keys/values,
     // node names of identifiers, module names of funs
@@ -360,7 +369,7 @@ fn write_strategy() -> impl Strategy<Value = WriteCase> {
     let k = prop_oneof![4 => 0usize..12, 2 => 12usize..100, 2 => 240usize..=255, 1 => 256usize..300];
     let lens = prop::collection::vec((any::<u16>(), prop_oneof![Just(0u32), Just(1), Just(254), Just(255), Just(256), Just(257), Just(1000), Just(65535), Just(65536), Just(70000), 2u32..40]), 0..4);
     (k, lens, any::<u8>(), arb_value(GenCfg { depth: 2, size: 6, heavy: false, ..GenCfg::std() }), any::<bool>(), arb_choices(6))
-        .prop_map(|(k, lens, shape, extra, with_payload, repr)| WriteCase { k, lens, shape, extra, with_payload, repr })
+        .prop_map(|(k, lens, shape, extra, with_payload, repr)| WriteCase { k, lens, shape, extra, with_payload, repr, bare: shape % 11 == 0 })
 }
 
 /// every count 0..=255 (both parities) x {no long atom, one long atom} x payload yes/no
@@ -376,7 +385,16 @@ fn all_counts() -> Vec<WriteCase> {
                     extra: Value::int(7),
                     with_payload,
                     repr: vec![],
+                    bare: false,
                 });
+            }
+        }
+    }
+    // messages whose atoms are all long (and all short, for comparison), without any fixed atom around them
+    for k in 1..=4usize {
+        for len in [300u32, 256, 255, 3] {
+            for with_payload in [false, true] {
+                out.push(WriteCase { k, lens: (0..k as u16).map(|i| (i, len)).collect(), shape: 0, extra: Value::int(7), with_payload, repr: vec![], bare: true });
             }
         }
     }
